@@ -102,6 +102,10 @@ func ghostSort(e *Engine, ty string) (string, types.Type) {
 		return SStr, types.Typ[types.String]
 	case "iface":
 		return SIface, nil
+	case "[]byte":
+		return SSlice, types.NewSlice(types.Typ[types.Byte])
+	case "[]string":
+		return SSlice, types.NewSlice(types.Typ[types.String])
 	case "set<ref>", "set<int>":
 		return "(Array Int Bool)", nil
 	case "set<string>":
